@@ -101,3 +101,65 @@ def _collate_empty(h):
     e.backend_name = "gaussian"
     out = h.call(e._combine_and_sort_samples, {})
     h.ensure("empty", out.returned and tuple(out.value[0].shape) == (0, 0))
+
+
+# ---------------------------------------------------------------- Gaussian backend: what photon counting hands to the sampler
+GB = "strawberryfields.backends.gaussianbackend.backend"
+
+
+def _sampler_case(which):
+    def fn(h):
+        """the (mean, covariance) handed to thewalrus' sampler are the moments of the MEASURED modes, in the order the modes
+        are listed, quadratures as (x.., p..): the Born distribution of the requested photon-number pattern.  The circuit is a
+        stub whose means / covariance are labelled symbols in both orderings (x.., p..) and (x0, p0, x1, p1, ..)."""
+        import itertools, types
+        gb = h.module(GB)
+        n = (2, 3)[h.eng.choose(2, "n")]
+        subsets = [list(c) for r in range(1, n + 1) for c in itertools.permutations(range(n), r)]
+        modes = subsets[h._reg("modes", h.eng.choose(len(subsets), "modes"))]
+        X = [h.real(f"x{k}") for k in range(n)]
+        P = [h.real(f"p{k}") for k in range(n)]
+        xp = X + P
+        V = np.empty((2 * n, 2 * n), dtype=object)
+        for a in range(2 * n):
+            for b in range(2 * n):
+                V[a, b] = h.real(f"V{a}_{b}")
+        inter = [i for k in range(n) for i in (k, k + n)]                  # (x0, p0, x1, p1, ...) as indices into (x.., p..)
+        circ = types.SimpleNamespace(
+            mean=np.array([0.5] * n), nlen=n,
+            smeanxp=lambda: np.array(xp, dtype=object), smean=lambda: np.array([xp[i] for i in inter], dtype=object),
+            scovmatxp=lambda: V.copy(), scovmat=lambda: V[np.ix_(inter, inter)].copy())
+        be = h.new(gb.GaussianBackend, circuit=circ)
+        seen = []
+
+        def haf(cov, shots, mean=None, **kw):
+            seen.append((mean, cov))
+            return np.zeros((shots, len(modes)), dtype=int)
+
+        def tor(mu=None, cov=None, samples=1, **kw):
+            seen.append((mu, cov))
+            return np.zeros((samples, len(modes)), dtype=int)
+        with h.stubbed(gb, "hafnian_sample_state", haf), h.stubbed(gb, "torontonian_sample_state", tor):
+            out = h.call(getattr(be, which), list(modes), shots=1)
+        h.ensure("no-exception", out.returned, bounded_shape=True)
+        if not out.returned or len(seen) != 1:
+            h.ensure("one-draw", False, bounded_shape=True)
+            return
+        mean, cov = seen[0]
+        idx = list(modes) + [m + n for m in modes]
+        h.ensure("mean-handed-over", mean is not None and len(mean) == len(idx), bounded_shape=True)
+        if mean is not None and len(mean) == len(idx):
+            for j, i in enumerate(idx):
+                h.ensure(f"mean[{j}]-is-{'x' if i < n else 'p'}-of-mode-{i % n}", mean[j] is xp[i], bounded_shape=True)
+        ok = tuple(np.shape(cov)) == (len(idx), len(idx))
+        h.ensure("covariance-shape", ok, bounded_shape=True)
+        if ok:
+            h.ensure("covariance-is-the-block-of-the-measured-modes", all(cov[a, b] is V[i, j] for a, i in enumerate(idx) for b, j in enumerate(idx)), bounded_shape=True)
+    fn.__name__ = ""
+    return fn
+
+
+PROOFS.append(Proof("C06", GB + ":GaussianBackend.measure_fock", _sampler_case("measure_fock"), name="GaussianBackend.measure_fock/sampler-gets-the-moments-of-the-measured-modes",
+                    native="from native.c06_replay import replay; replay('measure_fock', OBLIGATION, I)"))
+PROOFS.append(Proof("C06", GB + ":GaussianBackend.measure_threshold", _sampler_case("measure_threshold"), name="GaussianBackend.measure_threshold/sampler-gets-the-moments-of-the-measured-modes",
+                    native="from native.c06_replay import replay; replay('measure_threshold', OBLIGATION, I)"))
